@@ -13,7 +13,11 @@ META = {
                   "cells set exactly by their own reply's dispatch, a waiter returns only with its own reply, unique sequence numbers, no lost wake-up (a sleeper always has a "
                   "pending notifier) and progress while a reply is in the stream. 'Every request completes' is proved REFUTED for waiters without a deadline "
                   "(c13_completion_refuted_without_deadline: the F5 window leaves the waiter in poll on an empty stream with its result ready; known finding F5c; the harness runs "
-                  "no-deadline scenarios and recognises exactly that shape). serve's instruction program and the ordering facts of wait/__call__/_async_request are "
+                  "no-deadline scenarios and recognises exactly that shape). SCOPE of the model: waits that do not expire (expiry and late replies are C15's), by-value replies "
+                  "dispatched in one step (a reply whose unboxing needs a nested round trip is C15's F48; since 5dce6c8 a reply that cannot be rebuilt fails its own request), "
+                  "incoming REPLIES only - incoming requests of the peer and exception replies are run by the harness (mixed phase: each peer request answered exactly once, each "
+                  "exception reply fails exactly its request) but are not in the transition system. No liveness beyond progress: 'every request completes' is refuted above for "
+                  "deadline-free waits and not proved for the others. serve's instruction program and the ordering facts of wait/__call__/_async_request are "
                   "regenerated from the source (fail-closed) and tied by reflexivity; event traces of real threads under a virtual-primitive scheduler are replayed in the extracted model.",
     "level_note": "Trusted: Coq kernel, pygen, extraction+driver, the virtual Lock/Condition/poll/clock (harness/vsched.py) standing for threading and the channel; GIL atomicity of "
                   "dict.pop, dict.__setitem__, next(itertools.count()); one model step abstracts several source lines (issue = seq+register+send).",
@@ -63,7 +67,7 @@ class VChan:
         self.closed = True
 
 
-def scenario(n_clients, with_bg, answer_order, chooser, sync_timeout=2.0, timeouts=None, eof_after=None):
+def scenario(n_clients, with_bg, answer_order, chooser, sync_timeout=2.0, timeouts=None, eof_after=None, peer_requests=0, exc_replies=()):
     """returns dict(result per client, events, lateness per client, deadlock, clock advances)"""
     codes = [P.Connection.serve.__code__, P.Connection._dispatch.__code__, P.Connection._seq_request_callback.__code__,
              P.Connection._async_request.__code__, P.Connection._get_seq_id.__code__, P.Connection._send.__code__,
@@ -75,7 +79,7 @@ def scenario(n_clients, with_bg, answer_order, chooser, sync_timeout=2.0, timeou
     old = (rpyc.lib.time, H.time)
     rpyc.lib.time = vt
     H.time = vt
-    out = {"res_obj": {}, "results": {}, "late": {}, "dispatch_time": {}, "dispatch_count": {}, "return_time": {}, "seq_of": {}, "errors": {}}
+    out = {"res_obj": {}, "results": {}, "late": {}, "dispatch_time": {}, "dispatch_count": {}, "return_time": {}, "seq_of": {}, "errors": {}, "peer_requests": []}
     try:
         ch = VChan(S, rec)
         conn = P.Connection(VoidService(), ch, {"sync_request_timeout": sync_timeout})
@@ -199,9 +203,20 @@ def scenario(n_clients, with_bg, answer_order, chooser, sync_timeout=2.0, timeou
                 out["seq_of"][c] = q
                 answered.append(c)
                 rec(("answer", q))
-                ch.inq.append(brine.dump((consts.MSG_REPLY, q, (consts.LABEL_VALUE, "p%d" % c))))
-            # everything answered: let the background thread stop once the clients are done
-            S.block(lambda: all(i in out["return_time"] for i in range(n_clients)), S.now + 10 * (sync_timeout or 2.0), why="peer-wait-clients")
+                if c in exc_replies:
+                    # an exception reply (a vinegar record of a built-in class): the request must fail with exactly that
+                    ch.inq.append(brine.dump((consts.MSG_EXCEPTION, q, (("builtins", "KeyError"), ("p%d" % c,), (), "remote traceback"))))
+                else:
+                    ch.inq.append(brine.dump((consts.MSG_REPLY, q, (consts.LABEL_VALUE, "p%d" % c))))
+                if len(out["peer_requests"]) < peer_requests:
+                    # the peer is a client too: a request of its own, to be served by whichever thread reads it
+                    pq = 1000 + len(out["peer_requests"])
+                    out["peer_requests"].append(pq)
+                    ch.inq.append(brine.dump((consts.MSG_REQUEST, pq, (consts.HANDLE_PING, (consts.LABEL_VALUE, ("ping%d" % pq,))))))
+            # everything answered: let the background thread stop once the clients are done (and the peer's own requests are served)
+            S.block(lambda: all(i in out["return_time"] for i in range(n_clients))
+                    and sum(1 for d in ch.out if brine.load(d)[0] != consts.MSG_REQUEST) >= len(out["peer_requests"]),
+                    S.now + 10 * (sync_timeout or 2.0), why="peer-wait-clients")
             if with_bg:
                 S.block(lambda: stop["bg"] is not None, S.now + 100, why="peer-wait-bg")     # the background thread may not have started yet
             if stop["bg"] is not None:
@@ -231,6 +246,7 @@ def scenario(n_clients, with_bg, answer_order, chooser, sync_timeout=2.0, timeou
         out.pop("res_obj", None)
         out["errors"].update({str(k): repr(v) for k, v in S.errors.items()})
         out["inq_left"] = [brine.load(d)[1] for d in ch.inq]
+        out["peer_replies"] = [(m[0], m[1], m[2]) for m in (brine.load(d) for d in ch.out) if m[0] != consts.MSG_REQUEST]
         out["pending_left"] = sorted(conn._request_callbacks.keys())
         for i in range(n_clients):
             q = out["seq_of"].get(i)
@@ -312,6 +328,38 @@ def oracle13(ctx, case, out, n_clients):
             ctx.violation("slept-with-reply-in-stream", case, observed=adv, expected="a thread serves the stream", what="every thread slept (clock had to advance) while a reply was waiting in the stream")
     if out["inq_left"] or out["pending_left"]:
         ctx.violation("reply-or-callback-left-over", case, observed={"inq": out["inq_left"], "pending": out["pending_left"]}, expected="none", what="a reply was never dispatched or a callback never invoked")
+    if out["errors"]:
+        ctx.violation("thread-raised", case, observed=out["errors"], expected="no exception", what="a thread raised")
+
+
+def oracle13_mixed(ctx, case, out, n_clients, exc_replies):
+    """the peer also sends requests of its own and answers some requests with exceptions: every incoming message is dispatched
+    exactly once - each of the peer's requests gets exactly one reply bearing its number and echoing its argument, each request
+    answered with an exception fails with exactly that exception, everything else as in oracle13"""
+    if out["deadlock"]:
+        ctx.violation("deadlock", case, observed=out["deadlock"][:300], expected="no deadlock", what="all threads blocked with no deadline")
+        return
+    for i in range(n_clients):
+        r = out["results"].get(i)
+        want = "EXC:KeyError" if i in exc_replies else "p%d" % i
+        if r != want:
+            ctx.violation("reply-crossed-or-lost:" + str(r)[:30], case, observed=r, expected=want, what="a request did not end with the reply (or the exception) the peer sent for it")
+    # without a background serving thread nobody serves once the last client has returned: a request of the peer still in the
+    # stream then is simply not read yet (no violation); one that was read must have been answered
+    unread = [q for q in out["inq_left"] if q >= 1000] if not case["bg"] else []
+    out = dict(out, inq_left=[q for q in out["inq_left"] if q not in unread])
+    for pq in out["peer_requests"]:
+        if pq in unread:
+            continue
+        got = [m for m in out["peer_replies"] if m[1] == pq]
+        if len(got) != 1 or got[0][0] != consts.MSG_REPLY or got[0][2] != (consts.LABEL_VALUE, "ping%d" % pq):
+            ctx.violation("incoming-request-answered-%d-times" % len(got), case, observed=got[:3], expected="exactly one reply echoing its argument",
+                          what="a request sent by the peer while several threads serve the connection was not answered exactly once")
+    stray = [m for m in out["peer_replies"] if m[1] not in out["peer_requests"]]
+    if stray:
+        ctx.violation("stray-response-sent", case, observed=stray[:3], expected="none", what="a response was sent for a request the peer never made")
+    if out["inq_left"] or out["pending_left"]:
+        ctx.violation("reply-or-callback-left-over", case, observed={"inq": out["inq_left"], "pending": out["pending_left"]}, expected="none", what="a message was never dispatched or a callback never invoked")
     if out["errors"]:
         ctx.violation("thread-raised", case, observed=out["errors"], expected="no exception", what="a thread raised")
 
@@ -425,6 +473,18 @@ def run_plans(ctx, which):
             if out["deadlock"]:
                 ctx.count("no-deadline-runs-stalled")
             oracle13_nodeadline(ctx, case, out, nc)
+    if which == "C13":
+        for k in range(80 if ctx.quick else 2000):
+            nc = r.choice([1, 2, 2, 3])
+            bg = r.random() < 0.7 or nc == 1
+            order = list(range(nc)); r.shuffle(order)
+            seed, stick = r.randrange(10**9), r.choice([0.0, 0.2, 0.5])
+            pr, ex = r.choice([1, 2, 3]), [i for i in range(nc) if r.random() < 0.4]
+            out = scenario(nc, bg, order, make_chooser(seed, stick), peer_requests=pr, exc_replies=ex)
+            case = {"clients": nc, "bg": bg, "order": order, "seed": seed, "stick": stick, "peer_requests": pr, "exc_replies": ex}
+            ctx.case(("mixed", nc, bg, tuple(order), seed, pr, tuple(ex)), nontrivial=True, sample={"case": case, "results": out["results"], "served": len(out["peer_replies"])})
+            ctx.count("mixed-runs(inbound requests + exception replies)")
+            oracle13_mixed(ctx, case, out, nc, ex)
     if model and batch:
         outs = model.batch([b[0] for b in batch])
         for (mc, out, case), m in zip(batch, outs):
@@ -452,6 +512,11 @@ def replay(ctx, rep):
     if cs.get("eof_after") is not None:
         out = scenario(cs["clients"], cs["bg"], cs["order"], chooser, sync_timeout=None, timeouts=[None] * cs["clients"], eof_after=cs["eof_after"])
         oracle13_eof(ctx, cs, out, cs["clients"], cs["eof_after"])
+        ctx.case(("replay", cs["seed"]), True)
+        return
+    if "peer_requests" in cs:
+        out = scenario(cs["clients"], cs["bg"], cs["order"], chooser, peer_requests=cs["peer_requests"], exc_replies=cs["exc_replies"])
+        oracle13_mixed(ctx, cs, out, cs["clients"], cs["exc_replies"])
         ctx.case(("replay", cs["seed"]), True)
         return
     if cs.get("no_deadline"):
